@@ -163,8 +163,10 @@ impl IntervalDomain {
             (merged_domain.interval.end.clone() - &merged_domain.interval.start).try_to_u64()
         {
             let widening_threshold = std::cmp::max(
-                merged_domain.widening_delay + 1,
-                merged_domain.widening_delay + merged_domain.interval.stride,
+                merged_domain.widening_delay.wrapping_add(1),
+                merged_domain
+                    .widening_delay
+                    .wrapping_add(merged_domain.interval.stride),
             );
             if length <= widening_threshold {
                 // Do not widen below the widening threshold.
